@@ -173,7 +173,7 @@ def _plain(o):
 
 class SegRec:
     __slots__ = ("sid", "obj", "kind", "arc_ctor", "arc_snapshot", "assigns", "ulp", "group",
-                 "tols", "origin")
+                 "tols", "origin", "strict")
 
     def __init__(self, sid, obj, origin):
         self.sid = sid
@@ -186,6 +186,7 @@ class SegRec:
         self.group = {sid}        # sids sharing one length-cache dict (reversed()/copy)
         self.tols = set()         # (error, min_depth) pairs with which a full length was requested
         self.origin = origin
+        self.strict = False       # a stricter-than-default length may be cached: default answers are not unique
 
 
 class PathRec:
@@ -241,6 +242,7 @@ class World:
         self._fault_calls = 0
         self._fault_active = False
         self._fault_fired = False
+        self._cur_strict = False
         self._memo = {}
         self._install()
 
@@ -573,6 +575,9 @@ class World:
         """impl / twin are outcome tuples.  Returns True when they agree."""
         if impl[0] == "i":
             return True     # interrupted operation: no value to judge
+        if self._cur_strict and family_of(q) == "length-family":
+            self.probe("inconclusive_after_stricter_than_default_tolerance")
+            return True
         if impl[0] != twin[0]:
             ok = False
         elif impl[0] == "e":
@@ -679,6 +684,7 @@ class World:
             rec.group = src.group
             src.group.add(rec.sid)
             rec.tols = src.tols      # shared dict => shared tolerance history
+            rec.strict = src.strict
             self.probe("reversed_shares_cache")
         self.hash_sweep(idx)
         return "ok"
@@ -694,6 +700,7 @@ class World:
             src.group.add(rec.sid)
             rec.tols = src.tols
             rec.ulp = src.ulp
+            rec.strict = src.strict
         self.hash_sweep(idx)
         return "ok"
 
@@ -717,6 +724,7 @@ class World:
                     nrec.group = srec.group
                     srec.group.add(nsid)
                     nrec.tols = srec.tols
+                    nrec.strict = srec.strict
         self.note_state(new, "path_reversed")
         self.hash_sweep(idx)
         return "ok"
@@ -750,6 +758,7 @@ class World:
                 if rec.kind in ("Q", "C"):
                     rec.tols = set(src.tols)
                     rec.ulp = src.ulp
+                    rec.strict = src.strict
                 elif rec.kind == "A":
                     rec.tols = set(src.tols)
             model.append(sid)
@@ -971,6 +980,56 @@ class World:
             raise ValueError
         return self._mutate(idx, op, lambda: pr.obj.remove(target), model, "remove")
 
+    def op_setslice_reversed(self, idx, op, entry):
+        """p[:] = [s.reversed() for s in reversed(p)] - the whole path re-oriented in place through slice
+        assignment (same number of segments, same total length, opposite orientation)"""
+        if not self._have(p=[op["p"]]):
+            return "skipped"
+        pr = self.paths[op["p"]]
+        new_sids = []
+        for k, sid in enumerate(reversed(pr.model)):
+            src = self.segs[sid]
+            oc = outcome(lambda: src.obj.reversed())
+            if oc[0] != "v":
+                return "skipped"
+            nsid = op["sbase"] + k
+            while nsid in self.segs:
+                nsid += 1000
+            rec = self.adopt_seg(nsid, oc[1], "reversed", src)
+            if rec.kind in ("Q", "C"):
+                rec.ulp = True
+                src.ulp = True
+                rec.group = src.group
+                src.group.add(rec.sid)
+                rec.tols = src.tols
+                rec.strict = src.strict
+            new_sids.append(nsid)
+        p = pr.obj
+
+        def impl():
+            p[:] = [self._obj(x) for x in new_sids]
+
+        def model(m):
+            m[:] = new_sids
+        self.probe("path_reoriented_in_place")
+        return self._mutate(idx, op, impl, model, "setslice_reversed")
+
+    def op_path_concat(self, idx, op, entry):
+        """concatpaths([...]): a new path made by the library out of existing paths' segments"""
+        if not self._have(p=op["paths"]) or op["id"] in self.paths:
+            return "skipped"
+        srcs = [self.paths[x] for x in op["paths"]]
+        oc = outcome(lambda: sp_path.concatpaths([x.obj for x in srcs]))
+        tw = outcome(lambda: sp_path.concatpaths([self.twin_path(x) for x in srcs]))
+        self.compare(idx, "concat", oc, tw, False)
+        if oc[0] != "v" or not isinstance(oc[1], Path):
+            return "raised"
+        new = self.adopt_path(op["id"], oc[1], "concat", 10 ** 7 + op["id"] * 100)
+        self.probe("path_made_by_concatpaths")
+        self.note_state(new, "path_concat")
+        self.hash_sweep(idx)
+        return "ok"
+
     def op_reverse(self, idx, op, entry):
         if not self._have(p=[op["p"]]):
             return "skipped"
@@ -1164,8 +1223,16 @@ class World:
             return self._query_seg(idx, op, self.segs[op["id"]], q, entry)
 
     def _tol_ok(self, e, m):
-        """Only tolerances no stricter than the default are value-judged (DESIGN §3.4)."""
-        return e >= DEFAULT_TOL[0] and m <= DEFAULT_TOL[1] and m >= 0
+        """Tolerances the executor accepts.  Stricter-than-default ones are judged like any other (the
+        answer must be the fresh value at that tolerance or a legitimately cached stricter one); what they
+        cost is exactness afterwards: once a stricter value may sit in a cache, default-tolerance answers
+        that depend on lengths have more than one legitimate value, and those comparisons are skipped for
+        the objects concerned (`strict`)."""
+        return 1e-16 <= e and 0 <= m <= 12
+
+    @staticmethod
+    def _is_strict(e, m):
+        return e < DEFAULT_TOL[0] or m > DEFAULT_TOL[1]
 
     def _legit_seg_lengths(self, rec, e, m):
         """Outcomes a correct cache may return for a full-length request at (e, m): the fresh value
@@ -1181,10 +1248,21 @@ class World:
     def _note_tol(self, rec, e, m):
         if rec.kind in ("Q", "C"):
             rec.tols.add((e, m))
+            if self._is_strict(e, m) and m != FAIL_MIN_DEPTH:
+                for sid in rec.group:
+                    if sid in self.segs:
+                        self.segs[sid].strict = True
         elif rec.kind == "A":
             rec.tols.add(DEFAULT_TOL)
 
     def _query_seg(self, idx, op, rec, q, entry):
+        self._cur_strict = rec.strict
+        try:
+            return self._query_seg2(idx, op, rec, q, entry)
+        finally:
+            self._cur_strict = False
+
+    def _query_seg2(self, idx, op, rec, q, entry):
         o = rec.obj
         tolerant = rec.ulp
         tw = None
@@ -1361,6 +1439,13 @@ class World:
             self._note_tol(self.segs[sid], e, m)
 
     def _query_path(self, idx, op, pr, q, entry):
+        self._cur_strict = any(self.segs[x].strict for x in pr.model)
+        try:
+            return self._query_path2(idx, op, pr, q, entry)
+        finally:
+            self._cur_strict = False
+
+    def _query_path2(self, idx, op, pr, q, entry):
         p = pr.obj
         tolerant = self.path_taint(pr)
         T = lambda: self.twin_path(pr)   # noqa: E731  (fresh twin for every query)
@@ -1388,6 +1473,8 @@ class World:
                 self._mark_path_tols(pr, e, m)
             if (e, m) != DEFAULT_TOL:
                 self.probe("nondefault_tolerance_query")
+            if self._is_strict(e, m):
+                self.probe("stricter_than_default_tolerance_query")
             warmed = True
         elif q == "length_fail":
             oc = self.impl(lambda: p.length(min_depth=FAIL_MIN_DEPTH))
@@ -1547,6 +1634,12 @@ class World:
                 self.compare(idx, "point", oc, tw, False)
             if oc[0] != "i":
                 self._mark_path_tols(pr, *DEFAULT_TOL)
+        elif q == "area":
+            if has_arc:
+                return "skipped"          # arcs are approximated by thousands of chords: too slow, same code
+            oc = self.impl(lambda: p.area())
+            tw = outcome(lambda: T().area())
+            self.compare(idx, "area", oc, tw, tolerant, rtol=1e-9, atol=(self._scale_atol(pr) ** 2) if tolerant else 0.0)
         elif q == "intersect":
             # not one of the queries the statement lists, but it reads the same object: whatever state
             # it keeps must follow every mutation too
@@ -1732,15 +1825,17 @@ def replay(hist, keep_log=False):
 # ----------------------------------------------------------------------------------------------
 
 PATH_MUT = ["setitem", "setslice", "insert", "append", "extend", "extend_self", "iadd", "delitem",
-            "delslice", "pop", "remove", "reverse", "clear", "set_start", "set_end", "approx_arcs", "set_closed"]
+            "delslice", "pop", "remove", "reverse", "clear", "set_start", "set_end", "approx_arcs", "set_closed",
+            "setslice_reversed"]
 PATH_Q = ["length", "length_T", "length_tol", "length_fail", "point", "T2t", "t2T", "ilength",
           "cropped", "start", "end", "bbox", "d", "iscontinuous", "isclosed", "len", "repr", "eq",
           "eq_twin", "derivative", "unit_tangent", "curvature", "normal", "closed", "isclosedac",
-          "membership", "radialrange", "intersect"]
+          "membership", "radialrange", "intersect", "area"]
 SEG_Q = ["length", "length_tol", "length_fail", "length_t", "point", "bbox", "ilength", "repr", "eq",
          "derivative", "unit_tangent", "poly", "points", "length_rev"]
 CREATE = ["new_seg", "dup_seg", "new_path", "seg_reversed", "seg_copy", "path_reversed", "path_slice",
-          "path_subpaths", "path_reparse", "path_deepcopy", "path_pickle", "path_transform", "seg_split"]
+          "path_subpaths", "path_reparse", "path_deepcopy", "path_pickle", "path_transform", "seg_split",
+          "path_concat"]
 
 
 class Gen:
@@ -1766,6 +1861,10 @@ class Gen:
         s = self.scale
         self.errors = [1e-12, c.choice([1e-9, 1e-6, 1e-3]) * s, c.choice([0.5, 10.0, 1e3]) * s]
         self.depths = [5, c.choice([3, 4, 2]), c.choice([0, 1])]
+        if c.random() < 0.3:
+            # some runs also ask for MORE than the default accuracy
+            self.errors.append(c.choice([1e-14, 1e-13, 1e-15]))
+            self.depths.append(c.choice([6, 7]))
         # swarm: enabled op kinds
         self.mut_on = [m for m in PATH_MUT if c.random() < 0.7] or ["setitem", "set_start"]
         self.q_on = [q for q in PATH_Q if c.random() < 0.75] or ["length", "start"]
@@ -1973,6 +2072,12 @@ class Gen:
         elif cat == "q":
             q = r.choice(self.q_on)
             op = self.pq_op(q, a, w, pr)
+            if op.get("q") == "area" and a.random() < 0.5:
+                # orientation-dependent answer: ask, re-orient the path in place, ask again
+                sb = self.next_sid
+                self.next_sid += 64
+                self.queue.append({"op": "setslice_reversed", "p": pid, "sbase": sb})
+                self.queue.append({"op": "q", "on": "p", "id": pid, "q": "area"})
             self.last = ("warm" if q in ("length", "length_tol", "length_T", "t2T", "T2t", "point",
                                           "ilength", "cropped", "length_fail", "derivative",
                                           "unit_tangent") else "q", pid)
@@ -2040,6 +2145,10 @@ class Gen:
             return {"op": m, "p": pid}
         if m == "set_closed":
             return {"op": m, "p": pid, "value": a.random() < 0.7}
+        if m == "setslice_reversed":
+            sb = self.next_sid
+            self.next_sid += 64
+            return {"op": m, "p": pid, "sbase": sb}
         if m == "approx_arcs":
             sb = self.next_sid
             self.next_sid += 64
@@ -2168,6 +2277,8 @@ class Gen:
             sb = self.next_sid
             self.next_sid += 32
             return {"op": k, "p": src, "id": pid, "sbase": sb}
+        if k == "path_concat":
+            return {"op": k, "paths": [a.choice(pids) for _ in range(a.choice([2, 2, 3]))], "id": pid}
         if k == "path_transform":
             sb = self.next_sid
             self.next_sid += 32
@@ -2422,6 +2533,8 @@ def _ex_alphabet():
         q("d", opts=[False, True, False]),
         q("isclosed"),
         q("eq_twin"),
+        q("area"),
+        {"op": "setslice_reversed", "p": P, "sbase": None},
     ]
 
 
